@@ -33,6 +33,10 @@ checks = {
    technique="explicit-state breadth-first search over sequences of 13 body-supplying calls (slice writes, readers with and without known length, failing reader) per (side, limit, in-memory limit, action, processor, ctl override) configuration on the real transaction, against an arithmetic reference model checked on every transition",
    text="Every chunking of a position-coded byte stream through every write / read-from entry point, for limits 1..5 with memory and spilled (temp file) buffering, Reject and ProcessPartial: returned (interruption, n, err), reader content, REQUEST_BODY / RESPONSE_BODY, data-error flag and body-phase count must equal the model (refusal exactly when the cumulative size reaches the limit, nothing beyond the limit stored, exactly the first limit bytes inspected once).",
    note="Trusted: the ~60-line arithmetic model. What is supplied after a Reject is outside the property (terminal states). Response bodies are memory-only by design of the library."),
+ "C05": dict(level="model_checking", design="§3 C05", engine="history enumeration + deterministic pool shim",
+   technique="exhaustive enumeration of predecessor histories (behaviour flags x abandonment point x logging x single/double Close) followed by probe transactions on the forcibly recycled object (sync.Pool replaced by a deterministic LIFO through the instrumenter); differential oracle: same probe on a brand-new WAF and object",
+   text="Every predecessor of the family is executed on the real code, its transaction object is forced to be the one the probe receives, and the probe's complete observable outcome (return values, interruption, matched rules, every variable collection through the plugin interface, body readers, audit record) must equal the fresh outcome; readers of the closed predecessor must yield nothing; a double Close must not alias two later transactions.",
+   note="Trusted: the pool shim hands out the most recently returned object (verified by the self test that every flag triggers its rule, and by the AllowType mutant). ENV/time/id variables masked. Bounded: <=1 flag (quick) / <=2 flags (thorough) of 34, 11 abandonment points, 3 probes."),
 }
 not_applicable = {}
 
